@@ -3,7 +3,7 @@
    (matched / unmatched-AS / unmatched-length over the covering buckets) equals the RFC 6811
    definition of the property layer, for every ROA set of at most K records of one family and
    every route of the pool. *)
-EXTENDS Rpki, RpkiDom
+EXTENDS Rpki, RpkiDom, FiniteSetsExt
 
 CONSTANTS Fam, K
 VARIABLE roas
@@ -12,7 +12,7 @@ Pool == IF Fam = "v4" THEN Records4 ELSE Records6
 Routes == {Route(p, n) : p \in (IF Fam = "v4" THEN RoutePfx4 ELSE RoutePfx6), n \in ShapesAll}
 
 ValInit == /\ Init
-           /\ roas \in {S \in SUBSET Pool : Cardinality(S) <= K}
+           /\ roas \in UNION {kSubset(k, Pool) : k \in 0..K}
 ValNext == UNCHANGED <<vars, roas>>
 ValSpec == ValInit /\ [][ValNext]_<<vars, roas>>
 
